@@ -544,6 +544,35 @@ def rule_tokens(ctx):
                     r.undecided.append(inst)
     if found < 2:
         raise AnalysisError("from_spec dispatch branches on BINARY_OPS / CONDITION_DATUM_TYPES not found")
+    # data-path spec keys: the first token must *be* "path", and the escape must look at every key
+    pp = path_parser(prog)
+    pref = [n for n in ast.walk(pp.node) if isinstance(n, ast.Call) and isinstance(n.func, ast.Attribute) and n.func.attr in ("startswith", "endswith") and any(isinstance(a, ast.Constant) and a.value == "path" for a in n.args)]
+    eqs = [n for n in ast.walk(pp.node) if isinstance(n, ast.Compare) and isinstance(n.ops[0], (ast.Eq, ast.NotEq)) and any(isinstance(c, ast.Constant) and c.value == "path" for c in [n.left] + n.comparators)]
+    inst = {"branch": "data-path key", "equality tests on 'path'": [norm(e) for e in eqs], "prefix tests": [norm(p_) for p_ in pref]}
+    r.instances.append(inst)
+    if pref:
+        r.fail(Finding("R-TOKENS", f"R-TOKENS|{pp.qualname}|prefix", f"{pp.file}:{pref[0].lineno}",
+                       f"`{norm(pref[0])}`: a mapping is a data-path spec only if its key's first token *is* 'path'; a prefix test also turns literal mappings such as {{'pathname': ...}} into paths", []))
+    elif eqs:
+        r.ok()
+    else:
+        r.undecided.append(inst)
+    esc_ret = [n for n in ast.walk(pp.node) if isinstance(n, ast.Return) and isinstance(n.value, (ast.DictComp, ast.Dict, ast.Name)) and isinstance(n._parent, ast.If)]
+    for er in esc_ret:
+        t = er._parent.test
+        tt = norm(t)
+        if "ESC_CODE" not in tt and "\\\\path" not in tt and "is_escaped" not in tt:
+            continue
+        inst = {"branch": "escaped '\\path' mapping", "guard": tt}
+        r.instances.append(inst)
+        over_all = any(isinstance(x, ast.Call) and norm(x.func) == "any" for x in ast.walk(t)) or "is_escaped" in tt
+        if over_all:
+            r.ok()
+        elif isinstance(t, (ast.Compare, ast.BoolOp)):
+            r.fail(Finding("R-TOKENS", f"R-TOKENS|{pp.qualname}|escape-guard", f"{pp.file}:{er._parent.lineno}",
+                           f"the escape test `{tt}` looks at one key only; a literal mapping whose escaped key is not that one keeps its '\\\\path' spelling (and is no longer the literal the spec wrote)", []))
+        else:
+            r.undecided.append(inst)
     return r
 
 
